@@ -5,6 +5,7 @@ package benchfmt
 import (
 	"math"
 	"bytes"
+	"io"
 	"strconv"
 	"unicode"
 	"unicode/utf8"
@@ -432,4 +433,88 @@ func H02UnitMalformed() {
 	} else {
 		vndAssert(nMeta == 1 && nErr == 0, "key-equals-value-accepted")
 	}
+}
+
+// h02Chunks delivers data in small pieces, as a pipe or network stream does.
+type h02Chunks struct {
+	data []byte
+	off  int
+	n    int
+}
+
+func (c *h02Chunks) Read(p []byte) (int, error) {
+	if c.off >= len(c.data) {
+		return 0, io.EOF
+	}
+	k := c.n
+	if k > len(p) {
+		k = len(p)
+	}
+	if k > len(c.data)-c.off {
+		k = len(c.data) - c.off
+	}
+	copy(p, c.data[c.off:c.off+k])
+	c.off += k
+	return k, nil
+}
+
+// H02Long: an input longer than the scanner's buffer, delivered in small chunks: results with
+// symbolic names, configuration values and units sit between two runs of foreign lines of
+// about 2.4 and 5 KB, so that the scanner's buffer is shifted and refilled after they were
+// cloned. Every clone still has the name, iteration count, measurements and configuration
+// of its own line when reading has finished.
+func H02Long() {
+	n := vndParam("results")
+	chunk := []int{257, 4096, 61}[vndParam("chunk")]
+	filler := []byte("# foreign line that the reader ignores, padded to sixty bytes\n")
+	var text []byte
+	for i := 0; i < 40; i++ {
+		text = append(text, filler...)
+	}
+	nm, val, unit := make([]byte, n), make([]byte, n), make([]byte, n)
+	for j := 0; j < n; j++ {
+		nm[j], val[j], unit[j] = vndByte("name"), vndByte("val"), vndByte("unit")
+		for _, c := range []byte{nm[j], val[j], unit[j]} {
+			vndAssume(vndAnd(c >= 'a', c <= 'z'))
+		}
+		text = append(text, "k: "...)
+		text = append(text, val[j], '\n')
+		text = append(text, "BenchmarkN"...)
+		text = append(text, nm[j])
+		text = append(text, " 7 "...)
+		text = append(text, '1'+byte(j))
+		text = append(text, " u"...)
+		text = append(text, unit[j], '\n')
+	}
+	for i := 0; i < 85; i++ {
+		text = append(text, filler...)
+	}
+	text = append(text, "BenchmarkLast 1 1 u\n"...)
+	var r Reader
+	r.Reset(&h02Chunks{data: text, n: chunk}, "f")
+	var clones []*Result
+	for r.Scan() {
+		res, ok := r.Result().(*Result)
+		if !ok {
+			vndAssert(false, "only-results")
+			return
+		}
+		clones = append(clones, res.Clone())
+	}
+	vndAssert(r.Err() == nil, "no-io-error")
+	vndAssert(len(clones) == n+1, "one-result-per-benchmark-line")
+	if len(clones) != n+1 {
+		return
+	}
+	vndReach("h02:long")
+	for j := 0; j < n; j++ {
+		c := clones[j]
+		vndAssert(string(c.Name) == "N"+string(nm[j:j+1]), "clone-keeps-its-name-as-reading-continues")
+		vndAssert(c.Iters == 7, "clone-keeps-its-iteration-count")
+		vndAssert(len(c.Values) == 1 && c.Values[0].Value == float64(j+1) && c.Values[0].Unit == "u"+string(unit[j:j+1]), "clone-keeps-its-measurements")
+		vndAssert(c.GetConfig("k") == string(val[j:j+1]), "clone-keeps-its-configuration")
+		_, line := c.Pos()
+		vndAssert(line == 40+2*(j+1), "result-line-number")
+	}
+	vndAssert(string(clones[n].Name) == "Last", "last-result-name")
 }
